@@ -174,6 +174,9 @@ func vGhostSettle()                  { time.Sleep(20 * time.Millisecond) }
 func vGhostPoolMode(mode int)        {}
 func vGhostExplore(preempt int)      {}
 func vGhostExploreOff()              {}
+// vGhostFmtDigits(true): the engine forks on the digit count of symbolic integers rendered by fmt (exact text lengths).
+func vGhostFmtDigits(on bool) {}
+
 func vGhostAllocReset()              { runtime.ReadMemStats(&vMemBefore) }
 func vGhostTrackAllocs()             {}
 
